@@ -61,7 +61,8 @@ def run_op(p, e, op, stash=None, meta=True, shared=None):
             r = p.parse(W.as_input(e, op[1]), start=op[2], on_error=handler)
             return {'ok': canon(r, meta), 'handled': seen}
         if kind == 'lex':
-            return {'tokens': _drain(p.lex(W.as_input(e, op[1])), op[2], close=(len(op) > 3 and op[3]))}
+            gen = p.lex(W.as_input(e, op[1]), dont_ignore=True) if (len(op) > 4 and op[4]) else p.lex(W.as_input(e, op[1]))
+            return {'tokens': _drain(gen, op[2], close=(len(op) > 3 and op[3]))}
         if kind == 'lex_late':
             stash['late'] = ('lex', p.lex(W.as_input(e, op[1])))
             return {'stashed': True}
